@@ -28,7 +28,7 @@ def insertSorted (x : MKey × Metric) : List (MKey × Metric) → List (MKey × 
   | [] => [x]
   | y :: ys => if keyLt x.1 y.1 then x :: y :: ys else y :: insertSorted x ys
 
-def sortMs (l : List (MKey × Metric)) : List (MKey × Metric) := l.foldl (fun acc x => insertSorted x acc) []
+def sortMs (l : List (MKey × Metric)) : List (MKey × Metric) := l.mergeSort (fun a b => keyLt a.1 b.1 || a.1 == b.1)
 
 def dumpMData (d : MData) : String := s!"{d.c},{d.t},{d.e},{d.mn},{d.mx},{d.sq}"
 
@@ -142,7 +142,7 @@ def mtStep (st : MtState) (t : Tokens) (impl : Option String) : MtState × StepO
       let nRefused := if discarded then 0 else (src.t.ms.filter (fun p => (r.find p.1).isNone)).length
       let refused := slot.refused + nRefused
       let fails := mtSpec r ledger refused ++
-        (if (src.t.ms.filter (fun p => (r.find p.1).isNone)).all (fun p => !p.2.forced) then []
+        (if discarded || (src.t.ms.filter (fun p => (r.find p.1).isNone)).all (fun p => !p.2.forced) then []
          else ["C05 metrics: a forced metric was refused by a merge"]) ++
         (if nRefused == 0 || r.count ≥ r.max then [] else ["C05 metrics: a merge refused metrics although the table is not full"]) ++
         (if cmd == "mergefailed" && !discarded && r.failed != src.t.failed + 1 then ["C02 metrics: attempt counter not carried over by MergeFailed"] else [])
@@ -192,6 +192,16 @@ def mtStep (st : MtState) (t : Tokens) (impl : Option String) : MtState × StepO
       let tNext := if orderFree then t' else r
       ({ st with slots := slotSet st.slots s { t := tNext, ledger := ledger, refused := refused } },
        { model := if orderFree then dumpMt t' else dumpMt r, specFails := fails })
+  | "fill" =>
+    -- mt fill s prefix n : n unforced additions prefix0 .. prefix(n-1), one result line
+    let pre := tokStr t 3
+    let n := tokNat t 4
+    let t' := (List.range n).foldl (fun (acc : MTable) i =>
+      acc.addRaw (pre ++ toString i, "") { c := 1, t := 1, e := 1, mn := 1, mx := 1, sq := 1 } false) slot.t
+    let admitted := (List.range n).filter (fun i => (t'.find (pre ++ toString i, "")).isSome)
+    let ledger := admitted.foldl (fun l i => ledgerAdd l (pre ++ toString i, "") [{ c := 1, t := 1, e := 1, mn := 1, mx := 1, sq := 1 }]) slot.ledger
+    let sl := { slot with t := t', ledger := ledger, refused := slot.refused + (n - admitted.length) }
+    ({ st with slots := slotSet st.slots s sl }, { model := s!"count={t'.count} dropped={t'.dropped}" })
   | "setfailed" =>
     let sl := { slot with t := { slot.t with failed := tokNat t 3 } }
     ({ st with slots := slotSet st.slots s sl }, { model := dumpMt sl.t })
